@@ -13,7 +13,7 @@ type verifC04Int interface {
 	~int | ~int16 | ~int32 | ~int64 | ~uint | ~uint16 | ~uint32 | ~uint64
 }
 
-func verifC04Get[T verifC04Int](v T) int64      { return int64(v) }
+func verifC04Get[T verifC04Int](v T) int64     { return int64(v) }
 func verifC04Set[T verifC04Int](p *T, v int64) { *p = T(v) }
 
 // VerifC04Snapshot returns a copy of the accumulated bytes and expectedLen.
